@@ -228,6 +228,23 @@ _PROPERTY_DECOS = {
 _CUSTOM_PROP_CLASSES = {'custom_property', 'cached_custom_property'}
 
 
+def _desugar_lambda_properties(tree: ast.Module) -> ast.Module:
+    """`name = <...property>(lambda self: EXPR)` in a class body is the decorator form `@<...property> def name(self): return EXPR`"""
+    for cls in [n for n in ast.walk(tree) if isinstance(n, ast.ClassDef)]:
+        for i, st in enumerate(cls.body):
+            if isinstance(st, ast.Assign) and len(st.targets) == 1 and isinstance(st.targets[0], ast.Name) and isinstance(st.value, ast.Call) \
+                    and len(st.value.args) == 1 and not st.value.keywords and isinstance(st.value.args[0], ast.Lambda) \
+                    and (ast.unparse(st.value.func).split('.')[-1] in ('property', 'custom_property', 'cached_custom_property', 'cached_property')):
+                lam = st.value.args[0]
+                fn = ast.FunctionDef(name=st.targets[0].id, args=lam.args, body=[ast.Return(value=lam.body)],
+                                     decorator_list=[st.value.func], returns=None, type_comment=None, type_params=[])
+                ast.copy_location(fn, st)
+                ast.fix_missing_locations(fn)
+                fn.end_lineno = getattr(st, 'end_lineno', st.lineno)
+                cls.body[i] = fn
+    return tree
+
+
 class Program:
     def __init__(self, repo: str = REPO, include_tests: bool = False) -> None:
         self.repo = repo
@@ -269,6 +286,7 @@ class Program:
                     tree = ast.parse(src, filename=path)
                 except SyntaxError as e:  # the build is broken; nothing can be decided
                     raise AnalysisError(f'cannot parse {rel}: {e}')
+                tree = _desugar_lambda_properties(tree)
                 from . import baseline
                 tree = baseline.restore(rel, tree, self.restored)
                 if os.environ.get('VERIF_NO_CANON') != '1':
